@@ -204,6 +204,25 @@ class PybindWrapper:
 
         return ret
 
+    @staticmethod
+    def _cpp_string_literal(text: str):
+        """
+        Escape `text` so that it can be put between double quotes as a C++
+        string literal on a single line. Control characters are written as
+        three-digit octal escapes, which (unlike \\x escapes) cannot absorb
+        a following digit; everything else is kept as UTF-8 source text.
+        """
+        escapes = {'\\': '\\\\', '"': '\\"', '\n': '\\n', '\t': '\\t', '\r': '\\r'}
+        res = ""
+        for char in text:
+            if char in escapes:
+                res += escapes[char]
+            elif ord(char) < 0x20 or ord(char) == 0x7f:
+                res += '\\{:03o}'.format(ord(char))
+            else:
+                res += char
+        return res
+
     def _wrap_method(self,
                      method,
                      cpp_class,
@@ -279,7 +298,7 @@ class PybindWrapper:
                    # If extract_docstring errors or fails to find a docstring, it just prints a warning.
                    # The incantation repr(...)[1:-1].replace('"', r'\"') replaces newlines with \n 
                    # and " with \" so that the docstring can be put into a C++ string on a single line.
-                   docstring=', "' + repr(self.xml_parser.extract_docstring(self.xml_source, cpp_class, cpp_method, method.args.names()))[1:-1].replace('"', r'\"') + '"' 
+                   docstring=', "' + self._cpp_string_literal(self.xml_parser.extract_docstring(self.xml_source, cpp_class, cpp_method, method.args.names())) + '"'
                        if self.xml_source != "" else "",
                ))
 
